@@ -390,7 +390,7 @@ func c05Vectors() (cborVecs, coseVecs [][]byte, jsonVecs [][]byte) {
 	for _, p := range []Prof{P1, P2} {
 		coseVecs = append(coseVecs, icbor.Encode(c05Envelope(baseValid(p, 1).WireBytes())))
 	}
-	if files, err := filepath.Glob("/repo/testvectors/*/*"); err == nil {
+	if files, err := filepath.Glob(repoDir() + "/testvectors/*/*"); err == nil {
 		for _, f := range files {
 			b, err := os.ReadFile(f)
 			if err != nil || len(b) > 4096 {
